@@ -33,7 +33,8 @@ def main():
     src = os.path.abspath(sys.argv[1])
     keep = sys.argv[sys.argv.index("--keep-as") + 1] if "--keep-as" in sys.argv else None
     skip_confirm = "--skip-confirm" in sys.argv
-    patch, demo = os.path.join(src, "patch.diff"), os.path.join(src, "demo.py")
+    benign = "--benign" in sys.argv or os.path.exists(os.path.join(src, "check.py")) and not os.path.exists(os.path.join(src, "demo.py"))
+    patch, demo = os.path.join(src, "patch.diff"), os.path.join(src, "check.py" if benign else "demo.py")
     meta = json.load(open(os.path.join(src, "meta.json"))) if os.path.exists(os.path.join(src, "meta.json")) else {}
     out = {"confirmed": None}
     if not skip_confirm:
@@ -55,7 +56,8 @@ def main():
                 rc1, o1 = sh(f"{PY} {demo}", cwd=wt, env=env, timeout=180)
                 out.update({"demo_pristine_rc": rc0, "tests_with_patch_rc": rct, "tests_tail": ot.strip().splitlines()[-1:] , "demo_patched_rc": rc1,
                             "demo_patched_tail": o1.strip().splitlines()[-3:]})
-                out["confirmed"] = (rc0 == 0 and rct == 0 and rc1 != 0)
+                out["confirmed"] = (rc0 == 0 and rct == 0 and ((rc1 == 0) if benign else (rc1 != 0)))
+                out["benign"] = benign
         finally:
             sh(f"git -C /repo worktree remove --force {wt}")
             shutil.rmtree(wt, ignore_errors=True)
@@ -87,7 +89,11 @@ def main():
     out["caught_by"] = caught
     out["target_property"] = target
     out["caught_by_target"] = target in caught and caught[target]["rc"] == 1
-    print(f"target {target}: caught by {sorted(caught)}")
+    if benign:
+        meta["benign"] = True
+        print(f"BENIGN {target}: " + ("all 19 checks silent" if not caught else f"ALARM/ABORT from {sorted(caught)}"))
+    else:
+        print(f"target {target}: caught by {sorted(caught)}")
     for p, v in caught.items():
         for l in v["lines"]:
             print(f"  [{p} rc={v['rc']}] {l[:300]}")
@@ -103,7 +109,7 @@ def main():
         dst = os.path.join(VERIF, "seeded", keep)
         os.makedirs(dst, exist_ok=True)
         shutil.copy(patch, os.path.join(dst, "patch.diff"))
-        shutil.copy(demo, os.path.join(dst, "demo.py"))
+        shutil.copy(demo, os.path.join(dst, os.path.basename(demo)))
         meta.update({"origin": "independent sub-agent given only the property text and a scratch worktree", "confirmation": {k: v for k, v in out.items() if k != "caught_by"},
                      "checks": {"caught_by": sorted(caught), "caught_by_target": out["caught_by_target"], "reports": {p: v["lines"][:2] for p, v in caught.items()}},
                      "confirmed_at": time.strftime("%Y-%m-%d %H:%M:%S")})
